@@ -1164,7 +1164,14 @@ func (h *tkRun) keyEnrolledBy(key int) int {
 func runTKCase(c *engine.Ctx, tc tkCase) {
 	r := c.R
 	h := &tkRun{c: c, tc: tc, enrolledBy: map[int]int{}}
-	s, err := world.NewServer(world.ServerCfg{Backend: world.Inmem, StorageWrap: tc.Wrap, Wrap: func(in nodeenrollment.Storage) nodeenrollment.Storage {
+	// one history in three runs on the file back end (with its directory spellings and, in a third of those,
+	// record files that are symbolic links)
+	be := world.Inmem
+	if (len(tc.Steps)+len(tc.Origin))%3 == 0 {
+		be = world.File
+		c.R.Count("histories_on_the_file_back_end", 1)
+	}
+	s, err := world.NewServer(world.ServerCfg{Backend: be, StorageWrap: tc.Wrap, Wrap: func(in nodeenrollment.Storage) nodeenrollment.Storage {
 		h.rec = recstore.New(in)
 		h.fs = &tokensFaultStore{Storage: h.rec.Wrap()}
 		return h.fs
